@@ -24,7 +24,11 @@ RULE = ("(a) sequential histories of register/set_metadata/remove/remove-prefix/
         "operation body or a sequential history with >= 1 successful mutation; distinct = distinct (program set, schedule)")
 ASSUMPTIONS = ["single dict operations are atomic (GIL)", "preemption only matters at storage accesses and lock operations",
                "the OS scheduler is replaced by the enumerated / random schedules"]
-TRUSTED = ["harness/sched.py (deterministic scheduler, instrumented RLock and storage)"]
+TRUSTED = ["harness/sched.py (deterministic scheduler, instrumented RLock and storage)",
+           "lock_skeletons() in harness/props/c15.py: the abstraction of each public NameServer method to its lock skeleton "
+           "(`with self.lock` -> locked, every `self.storage` -> access, branches -> alt, loops / comprehensions -> star, helper methods "
+           "of the class inlined, accesses inside lambdas / unconsumed generator expressions -> deferred = unlocked); what the skeleton "
+           "means and that the check is sound is proved (LockSkeleton.allLocked_sound)"]
 
 NAMES = ["a", "ab", "b", "Pyro.NameServer"]
 
